@@ -353,7 +353,7 @@ func (r *Runtime) arrayproto_slice(call FunctionCall) Value {
 	}
 
 	a := r.arraySpeciesCreate(o, count)
-	if src := r.checkStdArrayObj(o); src != nil {
+	if src := r.checkStdArrayObjLen(o, length); src != nil {
 		if dst := r.checkStdArrayObjWithProto(a); dst != nil {
 			values := make([]Value, count)
 			copy(values, src.values[start:])
@@ -461,7 +461,7 @@ func (r *Runtime) arrayproto_splice(call FunctionCall) Value {
 		panic(r.NewTypeError("Invalid array length"))
 	}
 	a := r.arraySpeciesCreate(o, actualDeleteCount)
-	if src := r.checkStdArrayObj(o); src != nil {
+	if src := r.checkStdArrayObjLen(o, length); src != nil {
 		if dst := r.checkStdArrayObjWithProto(a); dst != nil {
 			values := make([]Value, actualDeleteCount)
 			copy(values, src.values[actualStart:])
@@ -621,7 +621,7 @@ func (r *Runtime) arrayproto_indexOf(call FunctionCall) Value {
 
 	searchElement := call.Argument(0)
 
-	if arr := r.checkStdArrayObj(o); arr != nil {
+	if arr := r.checkStdArrayObjLen(o, length); arr != nil {
 		for i, val := range arr.values[n:] {
 			if searchElement.StrictEquals(val) {
 				return intToValue(n + int64(i))
@@ -665,7 +665,7 @@ func (r *Runtime) arrayproto_includes(call FunctionCall) Value {
 		searchElement = _positiveZero
 	}
 
-	if arr := r.checkStdArrayObj(o); arr != nil {
+	if arr := r.checkStdArrayObjLen(o, length); arr != nil {
 		for _, val := range arr.values[n:] {
 			if searchElement.SameAs(val) {
 				return valueTrue
@@ -707,7 +707,7 @@ func (r *Runtime) arrayproto_lastIndexOf(call FunctionCall) Value {
 
 	searchElement := call.Argument(0)
 
-	if arr := r.checkStdArrayObj(o); arr != nil {
+	if arr := r.checkStdArrayObjLen(o, length); arr != nil {
 		vals := arr.values
 		for k := fromIndex; k >= 0; k-- {
 			if v := vals[k]; v != nil && searchElement.StrictEquals(v) {
@@ -1070,7 +1070,7 @@ func (r *Runtime) arrayproto_copyWithin(call FunctionCall) Value {
 	}
 	final := relToIdx(relEnd, l)
 	count := min(final-from, l-to)
-	if arr := r.checkStdArrayObj(o); arr != nil {
+	if arr := r.checkStdArrayObjLen(o, l); arr != nil {
 		if count > 0 {
 			copy(arr.values[to:to+count], arr.values[from:from+count])
 		}
@@ -1113,7 +1113,7 @@ func (r *Runtime) arrayproto_fill(call FunctionCall) Value {
 	}
 	final := relToIdx(relEnd, l)
 	value := call.Argument(0)
-	if arr := r.checkStdArrayObj(o); arr != nil {
+	if arr := r.checkStdArrayObjLen(o, l); arr != nil {
 		for ; k < final; k++ {
 			arr.values[k] = value
 		}
@@ -1280,7 +1280,7 @@ func (r *Runtime) arrayproto_with(call FunctionCall) Value {
 		panic(r.newErrorf(r.getRangeError(), "Invalid index %s", call.Argument(0).String()))
 	}
 
-	if src := r.checkStdArrayObj(o); src != nil {
+	if src := r.checkStdArrayObjLen(o, length); src != nil {
 		a := make([]Value, 0, length)
 		for k := int64(0); k < length; k++ {
 			pk := valueInt(k)
@@ -1313,7 +1313,7 @@ func (r *Runtime) arrayproto_toReversed(call FunctionCall) Value {
 	o := call.This.ToObject(r)
 	length := toLength(o.self.getStr("length", nil))
 
-	if src := r.checkStdArrayObj(o); src != nil {
+	if src := r.checkStdArrayObjLen(o, length); src != nil {
 		a := make([]Value, 0, length)
 		for k := int64(0); k < length; k++ {
 			from := valueInt(length - k - 1)
@@ -1352,7 +1352,7 @@ func (r *Runtime) arrayproto_toSorted(call FunctionCall) Value {
 	}
 	var a []Value
 
-	if src := r.checkStdArrayObj(o); src != nil {
+	if src := r.checkStdArrayObjLen(o, length); src != nil {
 		a = make([]Value, length)
 		copy(a, src.values)
 	} else {
@@ -1389,7 +1389,7 @@ func (r *Runtime) arrayproto_toSpliced(call FunctionCall) Value {
 		panic(r.NewTypeError("Invalid array length"))
 	}
 
-	if src := r.checkStdArrayObj(o); src != nil {
+	if src := r.checkStdArrayObjLen(o, length); src != nil {
 		var values []Value
 		if itemCount == actualSkipCount {
 			values = make([]Value, len(src.values))
@@ -1444,6 +1444,15 @@ func (r *Runtime) checkStdArrayObj(obj *Object) *arrayObject {
 		return arr
 	}
 
+	return nil
+}
+
+// checkStdArrayObjLen is checkStdArrayObj for callers that have read the length before running user code
+// (argument coercion, species constructors): the fast path is only valid if the array still has that length.
+func (r *Runtime) checkStdArrayObjLen(obj *Object, length int64) *arrayObject {
+	if arr := r.checkStdArrayObj(obj); arr != nil && int64(len(arr.values)) == length {
+		return arr
+	}
 	return nil
 }
 
